@@ -1,4 +1,5 @@
 import YakModel.UnitCheck
+import YakModel.SeqCheck
 
 open Yak
 
@@ -20,10 +21,42 @@ partial def runLines (h : IO.FS.Stream) (check : String → Except String Unit) 
   IO.println s!"checked {n} diffs {bad}"
   return (if bad == 0 then 0 else 1)
 
+/-- stateful transcript loop for `seqdrv` transcripts; stops at the first difference (the model
+    state is no longer meaningful after one). -/
+partial def runSeq (h : IO.FS.Stream) (cfg : Tree.Cfg) : IO UInt32 := do
+  let mut st : SeqCheck.St := { cands := [{ cfg := cfg }] }
+  let mut n := 0
+  let mut lastOp := ""
+  let mut opNo := 0
+  repeat
+    let line ← h.getLine
+    if line.isEmpty then break
+    let l := line.trimAscii.toString
+    if l.isEmpty then continue
+    n := n + 1
+    if l.startsWith "> " then
+      lastOp := l
+      opNo := opNo + 1
+    let (st', err) := SeqCheck.stepLine st l
+    st := st'
+    match err with
+    | none => pure ()
+    | some e =>
+      IO.println s!"DIFF line {n} op {opNo}: {lastOp} :: {e}"
+      IO.println s!"checked {n} diffs 1"
+      return 1
+  IO.println ("STATS " ++ String.intercalate " " (st.stats.map (fun (k, v) => s!"{k}={v}")))
+  IO.println s!"checked {n} diffs 0"
+  return 0
+
 def main (args : List String) : IO UInt32 := do
   let stdin ← IO.getStdin
   match args with
   | ["unit"] => runLines stdin UnitCheck.checkLine
+  | ["seq"] => runSeq stdin {}
+  | ["seq", "d2"] => runSeq stdin { fixD2 := false }
+  | ["seq", "d5"] => runSeq stdin { fixD5 := false }
+  | ["seq", "d2d5"] => runSeq stdin { fixD2 := false, fixD5 := false }
   | _ => do
-    IO.eprintln "usage: yakmodel unit|seq|trace < transcript"
+    IO.eprintln "usage: yakmodel unit|seq [d2|d5|d2d5] < transcript"
     return 2
